@@ -50,8 +50,11 @@ class Summarizer:
         self.attr_syms = attr_syms or {}
         self.inline_methods = inline_methods
         self.T = Translator(name=self._name, attr=self._attr, call=self._call, positive=positive)
+        self.T.opaque_unknown = True
         self.cur = None
         self.depth = 0
+        self.skip_loops = False
+        self.at_loop = []       # (loop statement, path state in front of it)
 
     # -- translator callbacks ---------------------------------------------
     def pre(self, attr):
@@ -160,6 +163,15 @@ class Summarizer:
             if isinstance(s, ast.Pass):
                 continue
             if isinstance(s, (ast.For, ast.While)):
+                if self.skip_loops:
+                    # remember the state reached in front of the loop; names assigned inside become unknown afterwards
+                    self.at_loop.append((s, p.clone()))
+                    for n in ast.walk(s):
+                        if isinstance(n, ast.Name) and isinstance(n.ctx, ast.Store):
+                            p.locals.pop(n.id, None)
+                        if is_self_attr(n) and isinstance(n.ctx, ast.Store):
+                            p.stores.pop(n.attr, None)
+                    continue
                 raise HasLoop("loop in %s" % norm_src(s)[:60])
             raise Untranslatable("statement %s" % type(s).__name__)
         self.out.append(p)
